@@ -22,27 +22,28 @@ def main():
     ncfg = 400 if ck.thorough else 90
     cases = []        # (ctl, recip, impl)
     for ci in range(ncfg):
-        c = gen_ctl(rng)
+        c = gen_absent(rng, gen_ctl(rng))
         h.write_ctl(c)
         assert h.cmd("ctl") == "ok"
         for r in gen_recips(rng, 25):
-            cases.append((c, r, h.cmd("rw " + vlib.hx(r)), "initial"))
+            cases.append((c, r, h.cmd("rw " + vlib.hx(r)), "initial", None))
         if ci % 3 == 0:
             # HUP: only locals and virtualdomains are re-read
-            c2 = gen_ctl(rng)
+            c2 = gen_absent(rng, gen_ctl(rng))
             h.write_ctl(dict(c, locals=c2["locals"], vdoms=c2["vdoms"]))
             h.cmd("reread")
             ceff = dict(c, locals=c2["locals"], vdoms=c2["vdoms"])
             for r in gen_recips(rng, 15):
-                cases.append((ceff, r, h.cmd("rw " + vlib.hx(r)), "after-HUP"))
-    model, _, _ = vlib.run_lines(drv, ["rw %s %s" % (ctl_args(c), vlib.hx(r)) for c, r, _, _ in cases])
-    spec, _, _ = vlib.run_lines(drv, ["spec %s %s" % (ctl_args(c), vlib.hx(r)) for c, r, _, _ in cases])
+                cases.append((ceff, r, h.cmd("rw " + vlib.hx(r)), "after-HUP", c))
+    model, _, _ = vlib.run_lines(drv, ["rw %s %s" % (ctl_args(c), vlib.hx(r)) for c, r, _, _, _ in cases])
+    spec, _, _ = vlib.run_lines(drv, ["spec %s %s" % (ctl_args(c), vlib.hx(r)) for c, r, _, _, _ in cases])
     fails, mism = [], []
-    for (c, r, impl, phase), m, s in zip(cases, model, spec):
+    for (c, r, impl, phase, before), m, s in zip(cases, model, spec):
         ck.evaluated(); ck.count("rewrite_" + phase); ck.count("class_" + impl[:1])
         ck.nontrivial((r, impl))
-        obj = dict(kind="input", fn="rewrite", phase=phase, recipient=r.decode("latin1"), control={k: v.decode("latin1") for k, v in c.items()},
+        obj = dict(kind="input", fn="rewrite", phase=phase, recipient=r.decode("latin1"), control={k: (None if v is None else v.decode("latin1")) for k, v in c.items()},
                    observed=impl, spec=s, model=m)
+        if before is not None: obj["control_at_startup"] = {k: (None if v is None else v.decode("latin1")) for k, v in before.items()}
         if impl != s:
             fails.append(("route:" + ("hup-not-applied" if phase == "after-HUP" and impl == m else "misrouted"), obj, len(r)))
         if impl != m:
@@ -77,8 +78,8 @@ def main():
     ck.cov["rule"] = ("seeded configurations of locals/virtualdomains/percenthack/envnoathost (users, domains, dot wildcards, catch-all, empty-tag exceptions, "
                       "mixed case, comments, trailing blanks, no-colon lines; no duplicate keys) x recipients built from the configured names plus near-misses "
                       "(case flips, extra labels, missing/trailing/multiple @ and %), before and after a re-read; VERP senders. non-trivial = distinct (recipient, result)")
-    for c, r, impl, ph in cases[:3]:
-        ck.sample(dict(recipient=r.decode("latin1"), result=impl, phase=ph, virtualdomains=c["vdoms"].decode("latin1")))
+    for c, r, impl, ph, _ in cases[:3]:
+        ck.sample(dict(recipient=r.decode("latin1"), result=impl, phase=ph, virtualdomains=(c["vdoms"] or b"").decode("latin1")))
     fails.sort(key=lambda x: x[2])
     seen = set()
     for key, obj, _ in fails:
@@ -98,8 +99,12 @@ def replay(path):
     obj = json.load(open(path))
     rb = vlib.RepoBuild(); h = SendHarness(rb); drv = vlib.build_driver("C10")
     if obj.get("fn") == "rewrite":
-        c = {k: v.encode("latin1") for k, v in obj["control"].items()}
-        h.write_ctl(c); h.cmd("ctl")
+        dec = lambda d: {k: (None if v is None else v.encode("latin1")) for k, v in d.items()}
+        c = dec(obj["control"])
+        if obj.get("control_at_startup"):
+            h.write_ctl(dec(obj["control_at_startup"])); h.cmd("ctl"); h.write_ctl(c); h.cmd("reread")
+        else:
+            h.write_ctl(c); h.cmd("ctl")
         r = obj["recipient"].encode("latin1")
         impl = h.cmd("rw " + vlib.hx(r))
         s, _, _ = vlib.run_lines(drv, ["spec %s %s" % (ctl_args(c), vlib.hx(r))])
